@@ -115,6 +115,11 @@ def evaluate(case):
     exp = ra.expect(words)
     if exp['outcome'] == 'ok':
         st = exp['settings']
+        for k, earlier in st['repeated']:
+            if k in ('filter', 'break') and MATCHER_OK.get(earlier) is not True:
+                # an earlier value of a repeated -f / -b that is malformed (or not known to be well-formed): reporting it and
+                # ignoring it in favour of the later one are both within the statement
+                exp = dict(exp, outcome='ok_or_error')
         for k in ('filter', 'break'):
             if st[k] is not None and st[k] not in MATCHER_OK:
                 # a stray word became the value: whether it is a well-formed matcher is not known to the reference
@@ -158,8 +163,8 @@ def evaluate(case):
                     if st[k] is None:
                         if got != str(dflt):
                             V.append(Violation('argv.matcher_default', case, dict(detail, field=k, observed=got)))
-                    elif st[k] == '':
-                        pass          # an empty value is outside the alphabet of matchers
+                    elif st[k] == '' or any(r[0] == k for r in st['repeated']):
+                        pass          # an empty value is outside the alphabet of matchers; a repeated option is not specified
                     else:
                         want_m = str(matcher.parse(st[k]).simplify())
                         if got != want_m:
